@@ -178,6 +178,20 @@ template <typename T> inline HistCfg<T> make_hist_cfg(Rng& rng)
         c.dbins = rng.range(3, 9);
         c.dmin = T(rng.range(0, 40)) / T(10) - T(2);
         c.dmax = c.dmin + T(rng.range(1, 30)) / T(10);
+        if (rng.below(2))
+        {
+            // a binning whose bin size is not reproduced by (min + bins*size - min)/bins in T: any format that stores a derived quantity
+            // instead of the bin size drifts on such a range
+            for (int tries = 0; tries < 40000; ++tries)
+            {
+                std::size_t b = rng.range(3, 9);
+                T lo = T(rng.range(0, 40)) / T(10) - T(2), hi = lo + T(rng.range(1, 30)) / T(10);
+                volatile T size = (hi - lo) / T(b);
+                volatile T top = lo + T(b) * size;
+                volatile T size2 = (top - lo) / T(b);
+                if (size2 != size) { c.dbins = b; c.dmin = lo; c.dmax = hi; count("binnings_whose_bin_size_is_not_recomputable_from_the_range"); break; }
+            }
+        }
     }
     return c;
 }
